@@ -127,7 +127,7 @@ def hostile_stmt(rng, kind):
     if kind == "concat-two":
         return [f"$e = {hostile_literal(rng, chr(34))} + {lit} + 3"], False, False
     if kind == "regex":
-        return [f"$e = regex({lit[:-1]}({q})"], False, False
+        return [f'$e = regex("(" + {lit})'], False, False  # "(" + any text without ")": unterminated subpattern
     if kind == "send-arg":
         return [f"send Out(k={lit} + 3)"], False, False
     if kind == "if-cond":
